@@ -110,6 +110,7 @@ type World struct {
 
 	seq      uint64
 	tokenCtr int
+	Iter     int64
 	start    time.Time
 	connID   int
 	lastTask *simrt.Task
@@ -285,10 +286,18 @@ func (w *World) connGone(c *BackendConn) {
 		kept = append(kept, h)
 	}
 	w.held = kept
+	consumed := c.Link.ConsumedBySUT()
 	for _, a := range w.AttemptOrder {
-		if a.Conn == c && !a.Replied {
-			a.Dropped = true
+		if a.Conn != c {
+			continue
 		}
+		if !a.Replied {
+			a.Dropped = true
+		} else if a.ReplyEnd > consumed && !a.lostChecked {
+			// the reply was written but the proxy never read it: from its side this is a lost connection
+			a.Dropped, a.ReplyLost = true, true
+		}
+		a.lostChecked = true
 	}
 	for i, cc := range w.ControlConns {
 		if cc == c {
@@ -322,9 +331,13 @@ func (w *World) release(i int) {
 	if h.att != nil {
 		h.att.Replied = true
 		h.att.ReplyRaw = h.raw
+		delete(h.conn.Outstanding, h.att.Stream)
 	}
 	w.Logf("backend %s: -> %s (stream %d)", h.conn, h.desc, h.stream)
 	h.conn.Link.PeerWrite(h.raw)
+	if h.att != nil {
+		h.att.ReplyEnd = h.conn.Link.WrittenToSUT()
+	}
 }
 
 func (w *World) recordAttempt(c *BackendConn, raw []byte, frm *frame.Frame, tok string) *Attempt {
@@ -334,6 +347,10 @@ func (w *World) recordAttempt(c *BackendConn, raw []byte, frm *frame.Frame, tok 
 	if c.Outstanding[a.Stream] {
 		w.Violate("backend-stream", "backend-stream-reused-while-outstanding",
 			fmt.Sprintf("proxy sent a request on backend stream %d of %s while an earlier request on that stream is unanswered", a.Stream, c))
+	}
+	c.Outstanding[a.Stream] = true
+	if n := len(c.Outstanding); n > w.Stats["backend.streams_high_water"] {
+		w.Stats["backend.streams_high_water"] = n
 	}
 	w.Attempts[tok] = append(w.Attempts[tok], a)
 	w.AttemptOrder = append(w.AttemptOrder, a)
@@ -524,6 +541,10 @@ func (w *World) Edges() []uint64 {
 // StepOnce performs one scheduler step. It returns false when nothing at all was enabled
 // even after letting the clock run for maxIdle.
 func (w *World) StepOnce(maxIdle time.Duration) bool {
+	w.Iter++
+	if w.Iter > 8*w.Cfg.MaxSteps {
+		panic("world: iteration budget exhausted (a harness loop makes no progress)")
+	}
 	w.S.Settle()
 	if p := w.S.TakePanics(); len(p) > 0 {
 		for _, pi := range p {
@@ -697,7 +718,7 @@ func (w *World) RunUntil(cond func() bool, maxSim time.Duration) bool {
 func (w *World) Quiesce() {
 	for !w.stop && w.S.Steps < w.Cfg.MaxSteps {
 		w.S.Settle()
-		if len(w.S.RunnableTasks()) == 0 && len(w.netActs()) == 0 && len(w.held) == 0 {
+		if len(w.S.RunnableTasks()) == 0 && len(w.netActs()) == 0 && (len(w.held) == 0 || w.Cfg.WPeer == 0) {
 			return
 		}
 		save := w.Workload
